@@ -3618,6 +3618,10 @@ class NonTensorStack(LazyStackedTensorDict):
                     "stack_dim": self.stack_dim,
                     "device": device,
                 }
+                if _has_list_items(data, self.batch_dims):
+                    # an item is itself a list: say how many levels of "data" are stack
+                    # dimensions, the nesting alone does not tell
+                    jsondict["ndim"] = self.batch_dims
                 if _is_json_serializable(data):
                     jsondict["data"] = data
                 else:
@@ -3671,7 +3675,7 @@ class NonTensorStack(LazyStackedTensorDict):
             device = metadata["device"]
             if device is not None:
                 device = torch.device(device)
-            return cls._from_list(data, device=device)
+            return cls._from_list(data, device=device, ndim=metadata.get("ndim"))
         return super()._load_memmap(prefix=prefix, metadata=metadata, **kwargs)
 
     @classmethod
@@ -3864,6 +3868,13 @@ class NonTensorStack(LazyStackedTensorDict):
 
 
 _register_tensor_class(NonTensorStack)
+
+
+def _has_list_items(data, ndim):
+    # whether an item of a (nested) list of stacked non-tensor data, ndim levels down, is a list
+    if ndim == 0:
+        return isinstance(data, list)
+    return any(_has_list_items(item, ndim - 1) for item in data)
 
 
 def _share_memory_nontensor(data, manager: Manager):
